@@ -234,6 +234,38 @@ def case(kind: str, sh: dict, pid: str):
             P("C01", "reencode_identical", bytes2 == bytes1)
             P("C02", "reencode_same_length", len(bytes2) == len(bytes1))
 
+            # ---------------- C01: views of decoded arrays as new input --------------------------
+            if pid == "C01" and sh.get("crop") and kind in ("data3d", "emg", "force3d", "fpdata") and n >= 2:
+                # a new block built from slices of the arrays a decode handed out (cropping a
+                # trial) must encode the values of those slices - the same bytes a block built
+                # from independent copies of them encodes to
+                from . import simple as S_
+                outs = []
+                for mode in ("views", "copies"):
+                    take = (lambda a: a[1:]) if mode == "views" else (lambda a: a[1:].copy())
+                    if kind == "fpdata":
+                        m_ = I.mod("tdfForcePlatformsData")
+                        nb = m_.ForcePlatformsDataBlock(blk2.start_time, blk2.frequency, n - 1)
+                        for p_ in list(blk2.platforms):
+                            nb.add_platform(m_.ForcePlatformData(take(p_.application_point), take(p_.force), take(p_.torque)))
+                    else:
+                        nb = S_.new_block(I, kind, n - 1)
+                        for t_ in list(blk2):
+                            if kind == "data3d":
+                                it_ = I.mod("tdfData3D").MarkerTrack(t_.label, take(t_.data))
+                            elif kind == "emg":
+                                it_ = I.mod("tdfEMG").EMGTrack(t_.label, take(t_.data))
+                            else:
+                                it_ = I.mod("tdfForce3D").ForceTorqueTrack(t_.label, take(t_.application_point), take(t_.force), take(t_.torque))
+                            S_.add_item(kind, nb, it_)
+                    try:
+                        outs.append(B.encode(I, nb))
+                    except Exception as e_:  # noqa: BLE001
+                        outs.append(e_)
+                I.observe("crop", [o if not isinstance(o, Exception) else type(o).__name__ for o in outs])
+                P("C01", "block_built_from_views_of_decoded_arrays_encodes_their_values",
+                  not isinstance(outs[0], Exception) and not isinstance(outs[1], Exception) and outs[0] == outs[1])
+
             # ---------------- C05: gaps -------------------------------------------------------
             if pid == "C05" and kind in ("data3d", "emg", "force3d", "fpdata"):
                 head, lab, comps = track_layout(kind, blk)
@@ -274,6 +306,18 @@ def case(kind: str, sh: dict, pid: str):
                                 present_same.append(B.tob(I, a[f], "<f4") == B.tob(I, b[f], "<f4"))
                         for a, b in zip(c2, c3):
                             stable.append(B.tob(I, a[f], "<f4") == B.tob(I, b[f], "<f4"))
+                    # the caller writes into the first decode (every frame of every component);
+                    # a later decode of the same bytes must not see it
+                    for a in c2:
+                        for f in range(n):
+                            a[f] = 7.0
+                    blk4, _ = B.decode(I, kind, bytes1, blk.format.value, SENTINEL)
+                    c4 = all_components(I, kind, tracks_of(kind, blk4)[k], n)
+                    later = []
+                    for f in range(n):
+                        for a, b in zip(c3, c4):
+                            later.append(B.tob(I, a[f], "<f4") == B.tob(I, b[f], "<f4"))
+                    P("C05", "every_decode_identical", I.and_(*later) if later else True, f"after the first decode was overwritten in place; mask={mask}")
                     P("C05", "gap_frames_decode_to_NaN", I.and_(*gap_nan) if gap_nan else True, f"mask={mask}")
                     P("C05", "present_frames_keep_value", I.and_(*present_same) if present_same else True)
                     P("C05", "every_decode_identical", I.and_(*stable) if stable else True, f"mask={mask}")
@@ -344,6 +388,8 @@ def shapes(tier: str, pid: str):
     for kind, key in (("data3d", "tracks"), ("emg", "signals"), ("force3d", "tracks"), ("fpdata", "plats")):
         # the same float32 values handed over as a big-endian array
         A((kind, {"n": 2, key: 1, "lab": [1], "links": 0, "given": ">f4"}))
+        # decode, crop every decoded array to frames 1.., build a new block from the views
+        A((kind, {"n": 3, key: 1, "lab": [1], "links": 0, "crop": True}))
         # ... and as column-major (Fortran-contiguous) arrays
         A((kind, {"n": 2, key: 1, "lab": [1], "links": 0, "given": "F"}))
     # scale boundary: more than 2^15 / 2^16 points in one 2D block (concrete samples)
